@@ -103,6 +103,13 @@ class KDTree:
         pts_ax = self.points[pt_idx,axis] # 1D array of the considered coordinate to split 
         pivot = self._find_pivot(pts_ax)
         pivot_filter = pts_ax <= pivot
+        if pivot_filter.all():
+            # the pivot is the maximum along this axis (e.g. repeated coordinates): '<=' would send every point to the left
+            # and the same leaf would come back forever. Send the points at the maximum to the right instead
+            pivot_filter = pts_ax < pivot
+            if not pivot_filter.any():
+                # all coordinates are equal along this axis: every point lies on the splitting plane, any split is valid
+                pivot_filter = np.arange(pt_idx.size) < pt_idx.size//2
         idx_less = np.extract(pivot_filter, pt_idx)
         idx_more = np.extract(~pivot_filter, pt_idx)
         return pivot, idx_less, idx_more
